@@ -116,6 +116,7 @@ pub fn encode_ty(reg: &Registry, ty: &Ty, v: &View, o: &EncOpts) -> Item {
             encode_type(reg, sch, x, &EncOpts { omit_top_index: omit, force_variant_index: None, ..*o })
         }
         (Ty::Tagged(n, t), x) => Item::tag(*n, encode_ty(reg, t, x, o)),
+        (Ty::Phantom, _) => Item::array(vec![]),
         (Ty::Tri, View::U(0)) => Item::undefined(),
         (Ty::Tri, View::U(1)) => Item::null(),
         (Ty::Tri, View::U(n)) => Item::uint(*n - 2),
@@ -253,7 +254,7 @@ pub fn default_view(reg: &Registry, ty: &Ty) -> View {
         Ty::Str => View::Str(String::new()),
         Ty::Bytes => View::Bytes(vec![]),
         Ty::Opt(_) => View::None,
-        Ty::Vec(_) => View::Seq(vec![]),
+        Ty::Vec(_) | Ty::Phantom => View::Seq(vec![]),
         Ty::Map(..) => View::Map(vec![]),
         Ty::Named(n) => panic!("no default for named type {} ({:?})", n, reg.get(n).map(|s| s.name)),
         Ty::Tagged(_, t) => default_view(reg, t),
